@@ -1139,7 +1139,47 @@ fn hist_compact(h: &[Op]) -> String {
     h.iter().map(|o| format!("{:?}", o)).collect::<Vec<_>>().join(";")
 }
 
+/// Exploration from the empty store plus a second pass from a NON-INITIAL start state: two nodes,
+/// one relationship into the highest-numbered node, already compacted. Deleting a compacted
+/// relationship and reusing its id needs six operations from the empty store -- more than the
+/// tiers' depth -- so the tier-independence of that region was never reached (seeded change C02:
+/// frozen-tier removal skipped for the last node slot).
 fn explore(depth: usize, bounds: &Bounds, max_states: u64, qs: &[ParsedQ]) -> Explored {
+    let mut ex = explore_from(&[], depth, bounds, max_states, qs);
+    let prefix = [Op::CreateNode(0, 0), Op::CreateNode(1, 2), Op::CreateEdge(1, 2, 0), Op::Compact];
+    let extra = std::env::var("C02_PREFIX_DEPTH").ok().and_then(|s| s.parse().ok()).unwrap_or(3usize);
+    let ex2 = explore_from(&prefix, extra, bounds, max_states, qs);
+    ex.stats.states += ex2.stats.states;
+    ex.stats.transitions += ex2.stats.transitions;
+    ex.stats.cap_hit |= ex2.stats.cap_hit;
+    ex.stats.pruned_after_violation += ex2.stats.pruned_after_violation;
+    for (op, outs) in ex2.stats.outcomes_per_op {
+        let e = ex.stats.outcomes_per_op.entry(op).or_default();
+        for (o, c) in outs {
+            *e.entry(o).or_default() += c;
+        }
+    }
+    ex.stats.samples.extend(ex2.stats.samples.into_iter().take(1));
+    for (sig, v) in ex2.violations {
+        match ex.violations.get_mut(&sig) {
+            Some(e) => e.0 += v.0,
+            None => {
+                ex.violations.insert(sig, v);
+            }
+        }
+    }
+    ex.digests.extend(ex2.digests);
+    ex.evaluations += ex2.evaluations;
+    ex.refused += ex2.refused;
+    ex.states_with_violation += ex2.states_with_violation;
+    ex.checked_states += ex2.checked_states;
+    for (i, n) in ex2.per_query_nonempty.iter().enumerate() {
+        ex.per_query_nonempty[i] += n;
+    }
+    ex
+}
+
+fn explore_from(start: &[Op], depth: usize, bounds: &Bounds, max_states: u64, qs: &[ParsedQ]) -> Explored {
     let mut stats = hx::Stats::default();
     let mut seen: HashSet<u128> = HashSet::new();
     let mut ex = Explored { stats: hx::Stats::default(), violations: BTreeMap::new(), digests: vec![], evaluations: 0, refused: 0, states_with_violation: 0, per_query_distinct: vec![], per_query_nonempty: vec![0; qs.len()], checked_states: 0 };
@@ -1180,16 +1220,16 @@ fn explore(depth: usize, bounds: &Bounds, max_states: u64, qs: &[ParsedQ]) -> Ex
     };
     // initial state
     {
-        let main = build(&[], false, false);
-        let pre = build(&[], true, false);
-        let k = h128(&state_key(&[], &main, &pre));
+        let main = build(start, false, false);
+        let pre = build(start, true, false);
+        let k = h128(&state_key(start, &main, &pre));
         seen.insert(k);
-        let c = check_state(&[], qs, true);
-        absorb(&mut ex, &mut distinct, &[], k, c);
+        let c = check_state(start, qs, true);
+        absorb(&mut ex, &mut distinct, start, k, c);
     }
     stats.states = 1;
     stats.per_depth_states.push(1);
-    let mut frontier: Vec<Vec<Op>> = vec![vec![]];
+    let mut frontier: Vec<Vec<Op>> = vec![start.to_vec()];
     for d in 1..=depth {
         if frontier.is_empty() {
             break;
